@@ -61,6 +61,11 @@ def subjects(ctx):
         out.append((spec, seq[:p] + site + seq[p:], tag + "+site"))
         if len(site) <= n:
             out.append((spec, seq[:p] + site + seq[p + len(site):], tag + "+site-over"))
+        # the same in lower / mixed case (a site is a site whatever its spelling)
+        p = rng.randrange(0, n)
+        low = rng.choice([site.lower(), "".join(c.lower() if rng.random() < 0.5 else c for c in site)])
+        out.append((spec, seq[:p] + low + seq[p:], tag + "+site-lowercase"))
+        out.append((spec, (seq[:p] + site + seq[p:]).lower(), tag + "+site-all-lowercase"))
         # one letter changed
         p = rng.randrange(0, n)
         out.append((spec, seq[:p] + rng.choice("ACGT") + seq[p + 1:], tag + "+mut"))
